@@ -72,6 +72,7 @@ type Tr struct {
 	frames   int
 	sl       *slicer
 	privPkg  string
+	prop     string // property being checked ("" = all): selects which tagged callee postconditions are assumed
 	topFrame *Frame
 	topArgs  []Val
 	topBinds []Val
@@ -141,6 +142,7 @@ type Frame struct {
 	loopPrivAll     bool
 	lastEffectHeaps []string
 	loopGhosts      map[int][]string
+	curArgs         []Val
 }
 
 type backEdge struct {
@@ -968,6 +970,7 @@ func (f *Frame) val(v ssa.Value) Val {
 		if !tr.declared[key] {
 			tr.declared[key] = true
 			tr.fact("(> " + t + " 0)")
+			tr.confFacts(t, c)
 		}
 		return Val{K: VFunc, T: t, Typ: c.Type(), Prov: &FuncProv{Fn: c, Spec: c.String()}}
 	case *ssa.Builtin:
@@ -1552,6 +1555,7 @@ func (f *Frame) block(b *ssa.BasicBlock) {
 			}
 			tr.nalloc++
 			f.vals[x] = Val{K: VFunc, T: sInt(int64(-tr.nalloc)), Typ: x.Type(), Prov: &FuncProv{Fn: fn, Bindings: bs, Spec: fn.String()}}
+			tr.confFacts(f.vals[x].T, fn)
 		case *ssa.Call:
 			f.vals[x] = f.call(&x.Call, x, x.Type())
 		case *ssa.Defer:
